@@ -140,6 +140,46 @@ pub fn delivery() {
     sym::reach(1);
 }
 
+/// Mixed routes (C01): some files of a two-commit history reach a replica by plain file copy (any subset, any order,
+/// refresh after each), the rest by meld from the source; exchanging until nothing new is learnt must give the source's
+/// state and the same stored items. params: [k versions]
+pub fn copy_then_meld() {
+    let k = sym::param(0) as usize;
+    let a = Rep::new();
+    a.m.update(doc_with(&["a", "b"], &["x".to_string(), "y".to_string()], "t")).unwrap();
+    commit1(&a);
+    a.m.update(any_doc(k, 0)).unwrap();
+    if !a.m.has_staging() {
+        sym::reach(2);
+        return;
+    }
+    commit1(&a);
+    let final_state = state(&a.m);
+    let mut t = Rep::new();
+    {
+        let src = a.ad.read().unwrap();
+        let mut pending: Vec<String> = src.list_objects("").unwrap();
+        while !pending.is_empty() && sym::any_bool() {
+            let f = pending.remove(sym::choose(pending.len()));
+            t.ad.write().unwrap().write_object(&f, &src.read_object(&f, 0, 0).unwrap()).unwrap();
+            t.m.refresh().expect("refresh");
+        }
+    }
+    // the rest arrives through meld; two rounds so that "nothing new" is observed
+    t.pull(&a);
+    let again = t.m.meld(&a.m).expect("meld");
+    assert!(again.is_empty(), "a second meld from the same source still transfers blocks");
+    t.m.refresh().expect("refresh");
+    let mut fa = a.ad.read().unwrap().list_objects("").unwrap();
+    let mut ft = t.ad.read().unwrap().list_objects("").unwrap();
+    fa.sort();
+    ft.sort();
+    assert!(fa == ft, "after exchanging until nothing is new the two storages hold different items");
+    assert!(state(&t.m) == final_state, "replica fed by file copy + meld differs from the source");
+    assert!(state(&t.reopen()) == final_state, "reopened replica fed by file copy + meld differs from the source");
+    sym::reach(1);
+}
+
 /// An object referenced by a block may live in a pack that belongs to another, held-back block (payloads are
 /// de-duplicated against every indexed pack). The block must wait for that object as well.
 pub fn dedup_across_packs() {
